@@ -80,4 +80,199 @@ mod verif_in_context {
         }
         core::mem::forget(r);
     }
+
+    use crate::core::collections::UserProperties;
+    use crate::core::properties::*;
+    use core::sync::atomic::{AtomicU64, Ordering};
+
+    fn nz16(v: u16) -> NonZero<u16> {
+        NonZero::try_from(v).unwrap()
+    }
+
+    //@ h name=connack_quota props=C10,C12 tier=quick cap=small to=600
+    //@ claim: handle_connack sets Receive Maximum R and the send quota to the CONNACK's Receive Maximum (65535 when the property is absent), records Maximum Packet Size when announced (and leaves it as it was otherwise), and takes the session expiry interval from the CONNACK when present
+    //@ bounds: every prior Connection state, every R in 1..=65535 or absent, every M in 1..=2^32-1 or absent, every session expiry or absent; other CONNACK fields at their defaults
+    //@ funcs: Context::handle_connack, ConnackRxBuilder::build, ReceiveMaximum::default
+    #[kani::proof]
+    #[kani::unwind(4)]
+    pub(crate) fn connack_quota() {
+        let mut connection = any_connection();
+        let before_mps = connection.remote_max_packet_size;
+        let before_sei = connection.session_expiry_interval;
+        let (p_rm, rm): (bool, u16) = (kani::any(), kani::any());
+        kani::assume(rm != 0);
+        let (p_mps, mps): (bool, u32) = (kani::any(), kani::any());
+        kani::assume(mps != 0);
+        let (p_sei, sei): (bool, u32) = (kani::any(), kani::any());
+        let mut connack = default_connack();
+        // what the decoder's builder does: absent Receive Maximum reads as the type's default
+        connack.receive_maximum = if p_rm { ReceiveMaximum(nz16(rm)) } else { ReceiveMaximum::default() };
+        connack.maximum_packet_size = if p_mps { Some(MaximumPacketSize(NonZero::try_from(mps).unwrap())) } else { None };
+        connack.session_expiry_interval = if p_sei { Some(SessionExpiryInterval(sei)) } else { None };
+        Ctx::handle_connack(&mut connection, &connack);
+        let r = if p_rm { rm } else { 65535 };
+        assert!(connection.remote_receive_maximum == r, "R is the CONNACK's Receive Maximum, 65535 when absent");
+        assert!(connection.send_quota == r, "the send quota starts at R");
+        assert!(connection.remote_max_packet_size == if p_mps { Some(mps) } else { before_mps }, "Maximum Packet Size is the announced one");
+        assert!(connection.session_expiry_interval == if p_sei { sei } else { before_sei }, "session expiry interval from CONNACK when present");
+        kani::cover!(!p_rm, "Receive Maximum absent");
+        kani::cover!(p_rm && rm == 1, "Receive Maximum 1");
+        kani::cover!(p_mps && mps == u32::MAX, "largest Maximum Packet Size");
+        core::mem::forget(connack);
+    }
+
+    static ELAPSED_SECS: AtomicU64 = AtomicU64::new(0);
+    static ELAPSED_NANOS: AtomicU64 = AtomicU64::new(0);
+    pub(crate) fn elapsed_stub(_t: &SystemTime) -> Result<core::time::Duration, std::time::SystemTimeError> {
+        Ok(core::time::Duration::new(ELAPSED_SECS.load(Ordering::Relaxed), ELAPSED_NANOS.load(Ordering::Relaxed) as u32))
+    }
+
+    //@ h name=expiry_kernel props=C17 tier=quick cap=small to=600
+    //@ claim: session_expired (the clock is an arbitrary input): interval 0 => expired; interval u32::MAX => never expired; otherwise more than `interval` whole seconds since the disconnection => expired, fewer => not expired (exactly `interval` whole seconds is left unconstrained)
+    //@ bounds: every session expiry interval (u32), every elapsed time (u64 seconds + nanoseconds) via a stub of SystemTime::elapsed
+    //@ assume: SystemTime::elapsed replaced by a stub returning an arbitrary duration
+    //@ funcs: Context::session_expired, Context::is_reconnect
+    #[kani::proof]
+    #[kani::unwind(4)]
+    #[kani::stub(std::time::SystemTime::elapsed, elapsed_stub)]
+    pub(crate) fn expiry_kernel() {
+        let mut connection = any_connection();
+        let secs: u64 = kani::any();
+        let nanos: u32 = kani::any();
+        kani::assume(nanos < 1_000_000_000);
+        ELAPSED_SECS.store(secs, Ordering::Relaxed);
+        ELAPSED_NANOS.store(nanos as u64, Ordering::Relaxed);
+        // Solver build: the stub makes elapsed() return (secs, nanos) for any timestamp.  Native
+        // replay (no stubs): use a real timestamp that lies (secs, nanos) in the past instead.
+        let d = core::time::Duration::new(secs, nanos);
+        let stubbed = std::time::UNIX_EPOCH.elapsed().ok() == Some(d);
+        connection.disconnection_timestamp = if stubbed {
+            Some(std::time::UNIX_EPOCH)
+        } else {
+            match SystemTime::now().checked_sub(d) {
+                Some(t) => Some(t),
+                None => return,
+            }
+        };
+        let interval = connection.session_expiry_interval;
+        let expired = Ctx::session_expired(&connection);
+        if interval == 0 {
+            assert!(expired, "expiry interval 0: the session ends with the connection");
+        } else if interval == u32::MAX {
+            assert!(!expired, "expiry interval 0xFFFFFFFF: the session never expires");
+        } else if secs > interval as u64 {
+            assert!(expired, "the interval has elapsed: session expired");
+        } else if secs < interval as u64 {
+            assert!(!expired, "the interval has not elapsed: session still alive");
+        }
+        kani::cover!(interval != 0 && interval != u32::MAX && secs > interval as u64, "elapsed beyond a finite interval");
+        kani::cover!(interval != 0 && interval != u32::MAX && secs < interval as u64, "within a finite interval");
+        kani::cover!(secs > u32::MAX as u64, "elapsed beyond u32");
+    }
+
+    pub(crate) fn default_connack() -> ConnackRx {
+        ConnackRx {
+            session_present: false,
+            reason: ConnectReason::Success,
+            wildcard_subscription_available: WildcardSubscriptionAvailable::default(),
+            subscription_identifier_available: SubscriptionIdentifierAvailable::default(),
+            shared_subscription_available: SharedSubscriptionAvailable::default(),
+            maximum_qos: MaximumQoS::default(),
+            retain_available: RetainAvailable::default(),
+            server_keep_alive: None,
+            receive_maximum: ReceiveMaximum::default(),
+            topic_alias_maximum: TopicAliasMaximum::default(),
+            session_expiry_interval: None,
+            maximum_packet_size: None,
+            authentication_data: None,
+            assigned_client_identifier: None,
+            reason_string: None,
+            response_information: None,
+            server_reference: None,
+            authentication_method: None,
+            user_property: UserProperties::new(),
+        }
+    }
+
+    fn ack_rx<R: Default>(id: u16) -> AckRx<R> {
+        AckRx { packet_identifier: nz16(id), reason: R::default(), reason_string: None, user_property: UserProperties::new() }
+    }
+
+    /// kind: 0 subscribe/suback, 1 unsubscribe/unsuback, 2 pingreq/pingresp, 3 publish q1/puback,
+    /// 4 publish q2/pubrec, 5 pubrel/pubcomp
+    fn tx_id(kind: u8, id: u16) -> usize {
+        match kind {
+            0 => {
+                let mut b = SubscribeTxBuilder::default();
+                b.packet_identifier(nz16(id));
+                b.payload((crate::core::base_types::UTF8StringRef("t"), SubscriptionOptions::default()));
+                let p = TxPacket::Subscribe(b.build().unwrap());
+                let r = utils::tx_action_id(&p);
+                core::mem::forget(p);
+                r
+            }
+            1 => {
+                let mut b = UnsubscribeTxBuilder::default();
+                b.packet_identifier(nz16(id));
+                b.payload(crate::core::base_types::UTF8StringRef("t"));
+                let p = TxPacket::Unsubscribe(b.build().unwrap());
+                let r = utils::tx_action_id(&p);
+                core::mem::forget(p);
+                r
+            }
+            2 => utils::tx_action_id(&TxPacket::Pingreq(PingreqTxBuilder::default().build().unwrap())),
+            3 | 4 => {
+                let mut b = PublishTxBuilder::default();
+                b.topic_name(crate::core::base_types::UTF8StringRef("t"));
+                b.qos(if kind == 3 { QoS::AtLeastOnce } else { QoS::ExactlyOnce });
+                b.packet_identifier(nz16(id));
+                let p = TxPacket::Publish(b.build().unwrap());
+                let r = utils::tx_action_id(&p);
+                core::mem::forget(p);
+                r
+            }
+            _ => {
+                let mut b = PubrelTxBuilder::default();
+                b.packet_identifier(nz16(id));
+                let p = TxPacket::Pubrel(b.build().unwrap());
+                let r = utils::tx_action_id(&p);
+                core::mem::forget(p);
+                r
+            }
+        }
+    }
+
+    fn rx_id(kind: u8, id: u16) -> usize {
+        let p = match kind {
+            0 => RxPacket::Suback(SubackRx { packet_identifier: nz16(id), reason_string: None, user_property: UserProperties::new(), payload: Vec::new() }),
+            1 => RxPacket::Unsuback(UnsubackRx { packet_identifier: nz16(id), reason_string: None, user_property: UserProperties::new(), payload: Vec::new() }),
+            2 => RxPacket::Pingresp(PingrespRx {}),
+            3 => RxPacket::Puback(ack_rx(id)),
+            4 => RxPacket::Pubrec(ack_rx(id)),
+            _ => RxPacket::Pubcomp(ack_rx(id)),
+        };
+        let r = utils::rx_action_id(&p);
+        core::mem::forget(p);
+        r
+    }
+
+    //@ h name=action_id_agree props=C05 tier=quick cap=small to=900
+    //@ claim: the action id computed on the sending side (tx_action_id of SUBSCRIBE, UNSUBSCRIBE, PINGREQ, PUBLISH QoS 1, PUBLISH QoS 2, PUBREL) equals the one computed from an inbound packet (rx_action_id) exactly when the inbound packet is the acknowledgement type of that request and carries the same packet identifier (any PINGRESP for any PINGREQ); so an acknowledgement can only complete an operation of its own kind and identifier
+    //@ bounds: all six request kinds x all six acknowledgement kinds (two symbolic kind selectors), all non-zero packet identifiers on both sides
+    //@ funcs: utils::tx_action_id, utils::rx_action_id
+    #[kani::proof]
+    #[kani::unwind(4)]
+    pub(crate) fn action_id_agree() {
+        let (k1, k2): (u8, u8) = (kani::any(), kani::any());
+        kani::assume(k1 < 6 && k2 < 6);
+        let (i1, i2): (u16, u16) = (kani::any(), kani::any());
+        kani::assume(i1 != 0 && i2 != 0);
+        let t = tx_id(k1, i1);
+        let r = rx_id(k2, i2);
+        let should_match = k1 == k2 && (k1 == 2 || i1 == i2);
+        assert!((t == r) == should_match, "request and acknowledgement agree on the action id exactly when kind and packet identifier match");
+        kani::cover!(t == r && k1 == 4, "PUBLISH QoS 2 matched by its PUBREC");
+        kani::cover!(t != r && k1 == k2, "same kind, different identifier");
+        kani::cover!(t != r && i1 == i2, "same identifier, different kind");
+    }
 }
